@@ -471,9 +471,6 @@ def rule_from_okm(fx, rep):
         okr = len(r0) == 1 and op_place(r0[0]['rv'].get('op', ['x'])) == {'l': mul_target, 'p': []}
         rep.check(okr, 'SHAPE', '%s:from_okm:returns-sum' % short, 'returns hi * 2^k + lo', 'does not return the accumulated element', where, construct=path)
         shapes[short] = (len(seq), [c_.get('name') if c_ else None for c_ in [callee(t) for t in seq]])
-    if len(shapes) == 2:
-        rep.check(shapes['Fq'][1] == shapes['Fr'][1], 'SHAPE', 'from_okm:siblings-agree', 'Fq and Fr reductions have the same call skeleton (%d calls)' % shapes['Fq'][0],
-                  'the Fq and Fr implementations of from_okm differ in structure: %s vs %s' % (shapes['Fq'][1], shapes['Fr'][1]))
     rep.floor('SHAPE', 'from_okm-impls', len(shapes), 2)
 
 
